@@ -117,7 +117,7 @@ theorem castsFor_ok_up : ∀ (as js : List CoreTy),
       | none => simp [hcast] at hsome
       | some c =>
         refine ⟨c :: cs, ?_, by simp [hlen]⟩
-        simp [castsFor, hcast, hcs, bind, Except.bind, pure, Except.pure]
+        simp [castsFor, hcast, hcs]
 
 theorem castsFor_ok_down : ∀ (js as : List CoreTy),
     (∀ (i : Nat) (h : i < as.length), ∃ h' : i < js.length, le (as[i]) (js[i]) = true) →
@@ -139,6 +139,6 @@ theorem castsFor_ok_down : ∀ (js as : List CoreTy),
       cases hcast : cast j a with
       | none => simp [hcast] at hsome
       | some c =>
-        exact ⟨c :: cs, by simp [castsFor, hcast, hcs, bind, Except.bind, pure, Except.pure]⟩
+        exact ⟨c :: cs, by simp [castsFor, hcast, hcs]⟩
 
 end Witverif.Abi
